@@ -37,4 +37,7 @@ SymbolicEvaluates == Clause("SymbolicEvaluates", ~(On /\ Good /\ R.affine) \/ Sy
 OriginalUnchanged == Clause("OriginalUnchanged", ~(On /\ Good) \/ R.orig_unchanged)
 \* the substituted model also compares equal to the direct one under the library's own == (no symbolic objects left behind)
 PythonEqual == Clause("PythonEqual", ~(On /\ Good) \/ R.py_equal)
+\* subs returns a model of its own also when there is nothing (left) to substitute: the harness wrote into the result of a
+\* further subs call on the substituted and on the directly built model, and neither changed
+SubsIndependent == Clause("SubsIndependent", ~(On /\ Good) \/ R.subs_independent)
 =============================================================================
